@@ -8,6 +8,7 @@ the output (or the op is element-wise same-index); R4 no key record is written.
 import re
 
 from sa import api, asm, sym
+from sa.sym import I
 from sa.effects import Effects, fields_of
 from sa.facts import Program, walk
 from sa.symexec import Hooks, run_function, flat
@@ -204,6 +205,43 @@ def elementwise_same_index(v, f):
     return scan(eff, [])
 
 
+def balanced_by_evaluation(v, f, pidx):
+    """Fallback for writes through a const array parameter that are not one add loop and one remove loop: the function's effect tree
+    is evaluated on concrete words (sa/concrete.IntMachine; nothing runs) for every combination of its integer parameters in 1..4
+    (array length first) and a few contents of the array; calls are skipped (what they do to OTHER objects is not the question).
+    The array must hold after the call what it held before.  -> (True, detail) | (False, witness) | (None, why not evaluable)"""
+    import itertools
+    from sa import concrete, summ, symexec
+    pname = f.params[pidx]["n"]
+    ints = [p_["n"] for p_ in f.params if (p_["t"] or "").replace("const ", "").strip() in ("int", "int32_t", "long", "unsigned int", "uint32_t")]
+    if not ints or len(ints) > 4:
+        return None, "no small set of integer parameters to enumerate"
+    effs = symexec.run_function(v, f, hooks=summ.LOCAL_HELPERS)[0]
+    ncase = 0
+    for vals in itertools.product((1, 2, 3, 4), repeat=len(ints)):
+        scal = {sym.sym(n_): x_ for n_, x_ in zip(ints, vals)}
+        if any(x_ > 31 for x_ in (scal.get(sym.sym("t"), 1) * scal.get(sym.sym("basebit"), 1),)):
+            continue
+        length = max(vals)
+        for fill in (0x12345678, 0xFFFFFFFF, 0x80000000):
+            im = concrete.IntMachine(scalars=dict(scal))
+            loc = lambda j_: concrete.lvalue_location(sym.idx(sym.sym(pname), I(j_)), {})
+            before = [(fill + 0x01010101 * j_) & 0xFFFFFFFF for j_ in range(length)]
+            for j_, x_ in enumerate(before):
+                im.inputs[loc(j_)] = x_
+            try:
+                concrete.interpret(effs, dict(scal), im.handler(on_call=lambda x_, env_: True), on_segment=im.segment)
+            except concrete.NotEvaluable as e:
+                return None, "not evaluable: %s" % e
+            ncase += 1
+            for j_, x_ in enumerate(before):
+                now = concrete.Memory.read(im, loc(j_))
+                if isinstance(now, int) and (now - x_) & 0xFFFFFFFF:
+                    return False, "with %s: element %d of the const array '%s' holds 0x%08x after the call, 0x%08x before" % (
+                        ", ".join("%s = %d" % (n_, x2) for n_, x2 in zip(ints, vals)), j_, pname, now & 0xFFFFFFFF, x_)
+    return True, "evaluated for %d combinations of (%s) in 1..4: the array holds after the call what it held before" % (ncase, ", ".join(ints))
+
+
 def evaluation_effects(v):
     """deep mod sets with the proved add/remove pairs on const parameters exempted -> (Effects, {(usr, param index): (ok, detail, entries)})"""
     E = Effects(v)
@@ -219,6 +257,12 @@ def evaluation_effects(v):
                 direct.setdefault(rk[1], []).append(((rk, fl), ev))
         for pidx, entries in direct.items():
             ok, detail = balanced_const_writes(v, f, pidx)
+            if not ok:
+                ok2, det2 = balanced_by_evaluation(v, f, pidx)
+                if ok2 is True:
+                    ok, detail = True, det2
+                elif ok2 is False:
+                    detail = det2
             balanced[(f.usr, pidx)] = (ok, detail, entries)
     if balanced:
         E2 = Effects(v)
